@@ -68,6 +68,8 @@ def run(ctx):
         hist[vd] = hist.get(vd, 0) + 1
         if vd.startswith("HARNESS"):
             ctx.machinery(vd)
+        if vd.startswith("C16."):
+            continue  # a clause of the transport-equivalence property (its listed finding: socket workers and execmodel), not of C15
         if vd != "ok":
             ctx.violation(f"{vd}: {json.dumps(m)}", {"meta": m, "verdict": vd})
     ctx.coverage.update({
